@@ -1,1 +1,161 @@
-import CnlModel.Layered
+import CnlProofs.Scaled
+/-!
+# C03 — `scaled_integer` comparisons agree with the order of the denoted values
+
+Notation as in C01.  With `c = min eL eR`, the operands `l · ρ^eL` and `r · ρ^eR` are
+`al · ρ^c` and `ar · ρ^c` for the aligned representations `al = aligned ρ eL c l`,
+`ar = aligned ρ eR c r`; `ρ^c > 0`, so the order of the denoted values **is** the order of `al`, `ar`
+(`den_order` proves this against the rational `den`).  `cmpInt op a b` is the relation `op` on
+mathematical integers.  The model is `scaled_integer/operators.h`: the operand with the larger
+exponent is converted to the smaller exponent in `decltype(rep << constant<k>)` (the promoted
+type), then the representations are compared with the built-in operator.
+
+Restriction (the property's): the alignment is well-formed (`PowOk`) and the aligned operand fits
+its promoted representation type.
+
+* `cmp_by_value` — operands of the same signedness, or both non-negative (more generally:
+  whenever the common type is signed or both are non-negative, `cmp_by_value'`): all six operators
+  return exactly the truth value of the relation between the denoted values.
+* `cmp_mixed_builtin` — in every case, mixed signedness included, the result is the built-in
+  comparison `cCmp` of the aligned representations in the types `cmpTy` (the property's last
+  sentence; this is C12's requirement for the exponent-0 case).
+* `cmp_consistent`, `trichotomy` — the six operators are mutually consistent in every case: they
+  are the six relations between one pair of integers, so exactly one of `<`, `==`, `>` holds.
+* `cmp_builtin_operand` — comparing with a built-in integer is comparing with that integer wrapped
+  at exponent 0.
+-/
+namespace Cnl.C03
+open Cnl Cnl.Spec Cnl.Layered Cnl.ScaledP Cnl.Rounding
+
+/-- in every case: the built-in comparison of the aligned representations -/
+theorem cmp_mixed_builtin (op : CmpOp) (L R : IntTy) (hL : 1 ≤ L.bits) (hR : 1 ≤ R.bits)
+    (eL eR : Int) (ρ : Nat) (hρ : 2 ≤ ρ) (l r : Int) (hl : L.InRange l) (hr : R.InRange r)
+    (hwL : PowOk L (eL - min eL eR).toNat ρ) (hwR : PowOk R (eR - min eL eR).toNat ρ)
+    (hal : (promote L).InRange (aligned ρ eL (min eL eR) l))
+    (har : (promote R).InRange (aligned ρ eR (min eL eR) r)) :
+    Layered.cmp op (sc L eL ρ l) (sc R eR ρ r)
+      = .ok (cCmp op (cmpTy L eL eR, aligned ρ eL (min eL eR) l) (cmpTy R eR eL, aligned ρ eR (min eL eR) r)) :=
+  cmp_aligned op L R hL hR eL eR ρ hρ l r hl hr hwL hwR hal har
+
+/-- by value whenever the common type is signed or both operands are non-negative -/
+theorem cmp_by_value' (op : CmpOp) (L R : IntTy) (hL : 1 ≤ L.bits) (hR : 1 ≤ R.bits)
+    (eL eR : Int) (ρ : Nat) (hρ : 2 ≤ ρ) (l r : Int) (hl : L.InRange l) (hr : R.InRange r)
+    (hwL : PowOk L (eL - min eL eR).toNat ρ) (hwR : PowOk R (eR - min eL eR).toNat ρ)
+    (hal : (promote L).InRange (aligned ρ eL (min eL eR) l))
+    (har : (promote R).InRange (aligned ρ eR (min eL eR) r))
+    (hsg : (usualArith L R).signed = true ∨ (0 ≤ l ∧ 0 ≤ r)) :
+    Layered.cmp op (sc L eL ρ l) (sc R eR ρ r)
+      = .ok (cmpInt op (aligned ρ eL (min eL eR) l) (aligned ρ eR (min eL eR) r)) := by
+  rw [cmp_aligned op L R hL hR eL eR ρ hρ l r hl hr hwL hwR hal har]
+  congr 1
+  apply cCmp_value op (usualArith_cmpTy L R eL eR) (usualArith_bits_pos L R)
+  · exact inRange_common_left hal (hsg.imp id (fun h => aligned_nonneg hρ _ _ h.1))
+  · exact inRange_common_right har (hsg.imp id (fun h => aligned_nonneg hρ _ _ h.2))
+
+/-- representations of the same signedness, or both operands non-negative: all six operators
+compare the denoted values -/
+theorem cmp_by_value (op : CmpOp) (L R : IntTy) (hL : 1 ≤ L.bits) (hR : 1 ≤ R.bits)
+    (eL eR : Int) (ρ : Nat) (hρ : 2 ≤ ρ) (l r : Int) (hl : L.InRange l) (hr : R.InRange r)
+    (hwL : PowOk L (eL - min eL eR).toNat ρ) (hwR : PowOk R (eR - min eL eR).toNat ρ)
+    (hal : (promote L).InRange (aligned ρ eL (min eL eR) l))
+    (har : (promote R).InRange (aligned ρ eR (min eL eR) r))
+    (hsg : L.signed = R.signed ∨ (0 ≤ l ∧ 0 ≤ r)) :
+    Layered.cmp op (sc L eL ρ l) (sc R eR ρ r)
+      = .ok (cmpInt op (aligned ρ eL (min eL eR) l) (aligned ρ eR (min eL eR) r)) := by
+  apply cmp_by_value' op L R hL hR eL eR ρ hρ l r hl hr hwL hwR hal har
+  rcases hsg with hs | hs
+  · cases hLs : L.signed with
+    | true =>
+      left
+      exact usualArith_signed (promote_signed_of_signed hLs) (promote_signed_of_signed (hs ▸ hLs))
+    | false =>
+      right
+      have hRs : R.signed = false := hs ▸ hLs
+      have h1 := hl.1; have h2 := hr.1
+      unfold IntTy.lowest at h1 h2
+      simp only [hLs, hRs, Bool.false_eq_true, ite_false] at h1 h2
+      exact ⟨h1, h2⟩
+  · exact Or.inr hs
+
+/-- equal exponents: the comparison of the representations (no restriction at all) -/
+theorem cmp_same_exponent (op : CmpOp) (L R : IntTy) (hL : 1 ≤ L.bits) (hR : 1 ≤ R.bits)
+    (e : Int) (ρ : Nat) (l r : Int) (hl : L.InRange l) (hr : R.InRange r)
+    (hsg : (usualArith L R).signed = true ∨ (0 ≤ l ∧ 0 ≤ r)) :
+    Layered.cmp op (sc L e ρ l) (sc R e ρ r) = .ok (cmpInt op l r) := by
+  rw [cmp_same_exp]
+  congr 1
+  exact cCmp_value op rfl (usualArith_bits_pos L R)
+    (inRange_common_of_left hL hl (hsg.imp id (·.1))) (inRange_common_of_right hR hr (hsg.imp id (·.2)))
+
+/-- the order of the aligned representations is the order of the denoted values, whatever common
+exponent `b ≤ min eL eR` the two are expressed at -/
+theorem aligned_order (op : CmpOp) (ρ : Nat) (hρ : 2 ≤ ρ) (eL eR b : Int) (hb : b ≤ min eL eR) (l r : Int) :
+    cmpInt op (aligned ρ eL b l) (aligned ρ eR b r)
+      = cmpInt op (aligned ρ eL (min eL eR) l) (aligned ρ eR (min eL eR) r) := by
+  rw [← aligned_aligned ρ (show min eL eR ≤ eL by omega) hb l, ← aligned_aligned ρ (show min eL eR ≤ eR by omega) hb r]
+  exact cmpInt_aligned hρ op _ _ _ _
+
+/-- the six operators are the six relations between one pair of integers (the converted aligned
+representations) — in every case, mixed signedness included -/
+theorem cmp_consistent (L R : IntTy) (hL : 1 ≤ L.bits) (hR : 1 ≤ R.bits)
+    (eL eR : Int) (ρ : Nat) (hρ : 2 ≤ ρ) (l r : Int) (hl : L.InRange l) (hr : R.InRange r)
+    (hwL : PowOk L (eL - min eL eR).toNat ρ) (hwR : PowOk R (eR - min eL eR).toNat ρ)
+    (hal : (promote L).InRange (aligned ρ eL (min eL eR) l))
+    (har : (promote R).InRange (aligned ρ eR (min eL eR) r)) :
+    ∃ a b : Int, ∀ op, Layered.cmp op (sc L eL ρ l) (sc R eR ρ r) = .ok (cmpInt op a b) :=
+  ⟨_, _, fun op => by
+    rw [cmp_aligned op L R hL hR eL eR ρ hρ l r hl hr hwL hwR hal har, cCmp_wrapped]⟩
+
+/-- exactly one of `<`, `==`, `>` holds -/
+theorem trichotomy (L R : IntTy) (hL : 1 ≤ L.bits) (hR : 1 ≤ R.bits)
+    (eL eR : Int) (ρ : Nat) (hρ : 2 ≤ ρ) (l r : Int) (hl : L.InRange l) (hr : R.InRange r)
+    (hwL : PowOk L (eL - min eL eR).toNat ρ) (hwR : PowOk R (eR - min eL eR).toNat ρ)
+    (hal : (promote L).InRange (aligned ρ eL (min eL eR) l))
+    (har : (promote R).InRange (aligned ρ eR (min eL eR) r)) :
+    let c := fun op => Layered.cmp op (sc L eL ρ l) (sc R eR ρ r)
+    (c .lt = .ok true ∧ c .eq = .ok false ∧ c .gt = .ok false) ∨
+    (c .lt = .ok false ∧ c .eq = .ok true ∧ c .gt = .ok false) ∨
+    (c .lt = .ok false ∧ c .eq = .ok false ∧ c .gt = .ok true) := by
+  obtain ⟨a, b, h⟩ := cmp_consistent L R hL hR eL eR ρ hρ l r hl hr hwL hwR hal har
+  simp only [h, cmpInt]
+  rcases Int.lt_trichotomy a b with h1 | h1 | h1
+  · left; simp only [Res.ok.injEq, decide_eq_true_eq, decide_eq_false_iff_not]; omega
+  · right; left; simp only [Res.ok.injEq, decide_eq_true_eq, decide_eq_false_iff_not]; omega
+  · right; right; simp only [Res.ok.injEq, decide_eq_true_eq, decide_eq_false_iff_not]; omega
+
+/-- `<=`, `>=`, `!=` are determined by `<`, `==`, `>` as they should be -/
+theorem derived_operators (L R : IntTy) (hL : 1 ≤ L.bits) (hR : 1 ≤ R.bits)
+    (eL eR : Int) (ρ : Nat) (hρ : 2 ≤ ρ) (l r : Int) (hl : L.InRange l) (hr : R.InRange r)
+    (hwL : PowOk L (eL - min eL eR).toNat ρ) (hwR : PowOk R (eR - min eL eR).toNat ρ)
+    (hal : (promote L).InRange (aligned ρ eL (min eL eR) l))
+    (har : (promote R).InRange (aligned ρ eR (min eL eR) r)) :
+    ∃ lt eq gt : Bool,
+      Layered.cmp .lt (sc L eL ρ l) (sc R eR ρ r) = .ok lt ∧
+      Layered.cmp .eq (sc L eL ρ l) (sc R eR ρ r) = .ok eq ∧
+      Layered.cmp .gt (sc L eL ρ l) (sc R eR ρ r) = .ok gt ∧
+      Layered.cmp .le (sc L eL ρ l) (sc R eR ρ r) = .ok (lt || eq) ∧
+      Layered.cmp .ge (sc L eL ρ l) (sc R eR ρ r) = .ok (gt || eq) ∧
+      Layered.cmp .ne (sc L eL ρ l) (sc R eR ρ r) = .ok (!eq) := by
+  obtain ⟨a, b, h⟩ := cmp_consistent L R hL hR eL eR ρ hρ l r hl hr hwL hwR hal har
+  refine ⟨_, _, _, h .lt, h .eq, h .gt, ?_, ?_, ?_⟩
+  · rw [h]; congr 1; simp only [cmpInt]; rw [Bool.eq_iff_iff]; simp; omega
+  · rw [h]; congr 1; simp only [cmpInt]; rw [Bool.eq_iff_iff]; simp; omega
+  · rw [h]; congr 1; simp only [cmpInt]; rw [Bool.eq_iff_iff]; simp
+
+/-- comparing with a built-in integer is comparing with it wrapped at exponent 0 -/
+theorem cmp_builtin_operand (op : CmpOp) (L R : IntTy) (eL : Int) (ρ : Nat) (l r : Int) :
+    Layered.cmp op (sc L eL ρ l) (.int R, r) = Layered.cmp op (sc L eL ρ l) (sc R 0 ρ r)
+    ∧ Layered.cmp op (.int R, r) (sc L eL ρ l) = Layered.cmp op (sc R 0 ρ r) (sc L eL ρ l) :=
+  ⟨rfl, rfl⟩
+
+/-! Non-vacuity -/
+
+-- 17·2^-4 = 1.0625 < 5·2^3 = 40, across signedness, both non-negative
+example : Layered.cmp .lt (sc i32 (-4) 2 17) (sc u16 3 2 5) = .ok true := by decide
+-- negative vs positive, radix 10: -5·10^-3 < 7
+example : Layered.cmp .lt (sc i8 (-3) 10 (-5)) (sc i32 0 10 7) = .ok true := by decide
+example : PowOk i32 (0 - min (-3) 0 : Int).toNat 10 ∧ (promote i32).InRange (aligned 10 0 (min (-3) 0) 7) := by decide
+-- mixed signedness with a negative operand: the built-in comparison, not by value
+example : Layered.cmp .lt (sc i32 0 2 (-1)) (sc u32 0 2 1) = .ok false := by decide
+
+end Cnl.C03
